@@ -2,8 +2,8 @@ package main
 
 import (
 	"fmt"
-	"os"
 	"go/types"
+	"os"
 	"strings"
 
 	"golang.org/x/tools/go/ssa"
@@ -73,12 +73,37 @@ func runC19(c *Ctx) {
 		})
 		return reqMsg
 	}
+	// a helper that builds a response for the handlers (errorResponse(stunMsg, method, code)):
+	// every call of it is made from a dispatched handler (or from another such helper): it is
+	// judged at those handlers, not as a request-handling function of its own
+	var liftable func(fn *ssa.Function, d int) bool
+	liftable = func(fn *ssa.Function, d int) bool {
+		if d > 3 || fn.Parent() != nil || fn.Object() == nil || fn.Object().Exported() || w.fnUsedAsValue()[fn] {
+			return false
+		}
+		sites := w.callsTo(fn)
+		if len(sites) == 0 {
+			return false
+		}
+		for _, cs := range sites {
+			r := rootOf(cs.Parent())
+			if _, has := dispatch[r]; has {
+				continue
+			}
+			if !liftable(cs.Parent(), d+1) {
+				return false
+			}
+		}
+		return true
+	}
 	stopLift := func(fn *ssa.Function) bool {
-		if requestOf(rootOf(fn)) != nil {
+		if _, has := dispatch[rootOf(fn)]; has {
 			return true
 		}
-		_, has := dispatch[rootOf(fn)]
-		return has
+		if requestOf(rootOf(fn)) != nil {
+			return !liftable(fn, 0)
+		}
+		return false
 	}
 	for _, lc := range w.liftCalls(buildMsg, stopLift, 3) {
 		fn := lc.fn
@@ -94,7 +119,7 @@ func runC19(c *Ctx) {
 		switch {
 		case reqMsg == nil:
 			c.Undecided("C19.1", fname(fn), "buildMsg id", pos, "cannot identify the request message of "+fname(root))
-		case isLoad && tf.Name() == "TransactionID" && w.sameKey(tb, reqMsg):
+		case (isLoad && tf.Name() == "TransactionID" && w.sameKey(tb, reqMsg)) || w.key(tid) == "*@"+w.key(reqMsg)+".TransactionID":
 			c.OK("C19.1", fname(fn), "buildMsg id", pos, "TransactionID of "+w.key(reqMsg))
 		default:
 			c.Bad("C19.1", fname(fn), "buildMsg id", pos, "response is built with transaction id "+w.key(tid)+", not the TransactionID of the request "+w.key(reqMsg))
@@ -184,6 +209,39 @@ func runC19(c *Ctx) {
 		if ok0 && ok1 && p0.Parent() == fn && p1.Parent() == fn && depth < 3 {
 			c.Triv("C19.2", fname(fn), "send to", pos, "forwards its own (conn, dst) parameters: discharged at its callers")
 			return
+		}
+		// a stage shared by several handlers (a method of a per-request context object called
+		// from more than one of them): judged at every handler it is reached from, with the
+		// arguments expressed there
+		{
+			var target *ssa.Function = cs.Common().StaticCallee()
+			nUp, okUp := 0, true
+			why := ""
+			for _, lc := range w.liftCalls(target, isReq, 5) {
+				if lc.orig != cs {
+					continue
+				}
+				nUp++
+				if !isReq(lc.fn) {
+					okUp = false
+					why = "reached from " + fname(lc.fn) + ", which is not a request handler"
+					continue
+				}
+				rk := w.key(lc.fn.Params[0])
+				if w.key(lc.args[0]) != rk+".Conn" || w.key(lc.args[1]) != rk+".SrcAddr" {
+					okUp = false
+					why = "in " + fname(lc.fn) + " the response goes on " + w.key(lc.args[0]) + " to " + w.key(lc.args[1])
+				}
+			}
+			if nUp > 0 && okUp {
+				c.Anchor("C19.2", fname(fn))
+				c.OK("C19.2", fname(fn), "send to", pos, fmt.Sprintf("(req.Conn, req.SrcAddr) of the request in hand at each of the %d handler call chains that reach this stage", nUp))
+				return
+			}
+			if why != "" {
+				c.Bad("C19.2", fname(fn), "send to", pos, "response destination is not the request's (Conn, SrcAddr): "+why)
+				return
+			}
 		}
 		c.Bad("C19.2", fname(fn), "send to", pos, "response destination "+w.key(args[0])+", "+w.key(args[1])+" is neither the request's (Conn, SrcAddr) nor forwarded parameters")
 	}
@@ -545,7 +603,7 @@ func ruleRetransmission(c *Ctx, rule string) {
 					continue
 				}
 				bcall, _ := in.(*ssa.Call)
-				if bcall == nil || bcall.Call.StaticCallee() != buildMsg || !errorCodeIs(w, bcall, stunConst(w, "CodeAllocMismatch")) {
+				if bcall == nil || !w.msgHasErrorCode(bcall, stunConst(w, "CodeAllocMismatch"), 0) {
 					bad = "the mismatch path at " + w.instrPos(in) + " does not answer 437 (Allocation Mismatch)"
 				}
 			}
@@ -695,4 +753,65 @@ func (w *World) soleRequestRoot(fn *ssa.Function, isReq func(*ssa.Function) bool
 		return nil
 	}
 	return root
+}
+
+// msgHasErrorCode: the attribute list v (the message handed to buildAndSend / buildAndSendErr)
+// is built by buildMsg with an &ErrorCodeAttribute{Code: k}: directly, or by a module helper
+// every return of which builds such a message with its Code taken from an argument that is the
+// constant k at this call (errorResponse(stunMsg, method, stun.CodeBadRequest)).
+func (w *World) msgHasErrorCode(v ssa.Value, k int64, depth int) bool {
+	buildMsg := w.Func("server", "", "buildMsg")
+	bm, _ := callOf(w.resolveLoad(v))
+	if bm == nil || depth > 3 {
+		return false
+	}
+	cal := bm.Call.StaticCallee()
+	if cal == buildMsg {
+		return errorCodeIs(w, bm, k)
+	}
+	if cal == nil || !w.IsMod[cal] || len(cal.Blocks) == 0 {
+		return false
+	}
+	rets := returnsOf(cal)
+	if len(rets) == 0 {
+		return false
+	}
+	for _, r := range rets {
+		if len(r.Results) == 0 {
+			return false
+		}
+		inner, _ := callOf(w.resolveLoad(r.Results[0]))
+		if inner == nil {
+			return false
+		}
+		if inner.Call.StaticCallee() != buildMsg {
+			if !w.msgHasErrorCode(w.translate(w.resolveLoad(r.Results[0]), cal, bm), k, depth+1) {
+				return false
+			}
+			continue
+		}
+		found := false
+		w.eachInstr(cal, func(in ssa.Instruction) {
+			al, ok := in.(*ssa.Alloc)
+			if !ok {
+				return
+			}
+			if n := namedOf(al.Type()); n == nil || n.Obj().Name() != "ErrorCodeAttribute" {
+				return
+			}
+			if !sliceHasElem(inner.Call.Args[2], al) {
+				return
+			}
+			lit := w.literalOf(al)
+			if cv := lit.fields["Code"]; cv != nil {
+				if kv, ok := constInt(w.translate(w.resolveLoad(cv), cal, bm)); ok && kv == k {
+					found = true
+				}
+			}
+		})
+		if !found {
+			return false
+		}
+	}
+	return true
 }
